@@ -2117,7 +2117,26 @@ namespace bloch::compiler {
         }
     }
 
-    void SemanticAnalyser::visit(LiteralExpression&) {}
+    void SemanticAnalyser::visit(LiteralExpression& node) {
+        // The evaluator converts literal text with std::stoi/stoll/stof; reject what they cannot
+        // represent here so that running an accepted program never surfaces a raw exception.
+        try {
+            if (node.literalType == "int") {
+                (void)std::stoi(node.value);
+            } else if (node.literalType == "long") {
+                std::string text = node.value;
+                if (!text.empty() && (text.back() == 'L' || text.back() == 'l'))
+                    text.pop_back();
+                (void)std::stoll(text);
+            } else if (node.literalType == "float") {
+                (void)std::stof(node.value);
+            }
+        } catch (const std::exception&) {
+            throw BlochError(ErrorCategory::Semantic, node.line, node.column,
+                             "literal '" + node.value + "' is out of range for '" +
+                                 node.literalType + "'");
+        }
+    }
     void SemanticAnalyser::visit(NullLiteralExpression&) {}
 
     void SemanticAnalyser::visit(VariableExpression& node) {
